@@ -81,7 +81,7 @@ def main(argv=None):
     deadline = t0 + limit
     results, errors, timed_out = run_jobs(jobs, nproc=a.jobs, deadline=deadline, known=known,
                                           xval=P.get("xval", {"quick": 2, "thorough": 4})[a.tier],
-                                          chunk=P.get("chunk", 250), timeout_ms=P.get("timeout_ms", 20000), seed=seed)
+                                          chunk=P.get("chunk", 250), timeout_ms=P.get("timeout_ms", 20000), seed=seed, labels=P.get("labels"))
     labels = P.get("labels")  # None = every label of the harnesses belongs to the property
     exc_is_violation = P.get("exc_is_violation", False)
 
